@@ -36,7 +36,24 @@ func GenPlan(r *model.Rand) simrt.Plan {
 		p.Chunks = []int{3, 1, 0, 0, 0, 2}
 	}
 	p.EOFWithData = r.Chance(1, 2)
+	if r.Chance(1, 6) {
+		p.DelaysUs = GenDelays(r)
+	}
 	return p
+}
+
+// GenDelays: a slow source. The first bytes arrive late, or every read takes
+// its time, or only the end of input is late, or the source stalls for an hour.
+func GenDelays(r *model.Rand) []int64 {
+	return model.Pick(r, [][]int64{
+		{5_000_000},
+		{10_000_000, 0, 0},
+		{100_000},
+		{0, 0, 0, 60_000_000},
+		{3_600_000_000, 0, 0, 0, 0, 0, 0, 0},
+		{1, 999_999, 2_000_001},
+		{31_000_000, 0},
+	})
 }
 
 var mapPolicies = []string{"sorted", "reverse", "rotate", "shuffle", "shuffle"}
